@@ -150,6 +150,19 @@ func (vc *VC) applyContractOn(callee *ssa.Function, args []Term, preIn *Heap, r 
 			vc.assume(r, not(eq(args[0].S, "0")))
 		}
 	}
+	if c != nil && callee == vc.fn && c.Decreases != nil {
+		// recursion: the measure is non-negative at entry and strictly smaller at the recursive call
+		cur, err := env.evalTerm(c.Decreases.Expr)
+		if err != nil {
+			panic(evalError{"decreases: " + err.Error()})
+		}
+		ent, err := vc.entryEnv().evalTerm(c.Decreases.Expr)
+		if err != nil {
+			panic(evalError{"decreases: " + err.Error()})
+		}
+		k := vc.counter("recursion")
+		vc.oblige("decreases", fmt.Sprintf("recursion.decreases.%d", k), c.Decreases.Tags, r, and(app("<=", "0", ent.S), app("<", cur.S, ent.S)), c.Decreases.Src)
+	}
 	if c != nil {
 		c.Used = true
 		k := vc.counter("call." + label)
